@@ -290,7 +290,11 @@ def run(ctx):
             if isinstance(a0, ast.Name):
                 defs = [st.value for st in stmts(f) if isinstance(st, ast.Assign) and any(isinstance(t, ast.Name) and t.id == a0.id for t in st.targets)]
                 other = [st for st in stmts(f) if isinstance(st, (ast.AugAssign, ast.AnnAssign)) and isinstance(st.target, ast.Name) and st.target.id == a0.id]
-                ok = (a0.id == par and not defs) or (bool(defs) and not other and all(ast.unparse(d) in (par, f"{par}.bonds") for d in defs))
+                def leaves(e):
+                    return leaves(e.body) + leaves(e.orelse) if isinstance(e, ast.IfExp) else [e]
+
+                ok = (a0.id == par and not defs) or (bool(defs) and not other and all(
+                    ast.unparse(lf) in (par, f"{par}.bonds") for d in defs for lf in leaves(d)))
                 why = f"{a0.id} = " + " | ".join(ast.unparse(d)[:60] for d in defs)
             elif ast.unparse(a0) in (par, f"{par}.bonds"):
                 ok = True
@@ -321,4 +325,55 @@ MUTANTS = [
     Mutant("refactor-chain-starts", CHA, "    diff = np.diff(array.res_id)\n    res_id_decrement = diff < 0\n", "    res_id_decrement = np.diff(array.res_id) < 0\n", "R1.chain-starts-definition", kind="silent"),
     Mutant("repair-recursion", BONDS, "        _find_connected(\n            bond_list, connected_index, is_connected_mask, all_bonds\n        )\n",
            "        pass\n", "R3.no-recursion", kind="repair"),
+    # --- one seeded fault per rule that had none -----------------------------------------------
+    Mutant("chain-count-includes-stop", CHA, "    return len(get_chain_starts(array))\n",
+           "    return len(get_chain_starts(array, add_exclusive_stop=True))\n", "R2.count", "get_chain_count"),
+    Mutant("residue-count-is-last-start", RES, "    return len(get_residue_starts(array))\n",
+           "    return get_residue_starts(array)[-1]\n", "R2.count", "get_residue_count"),
+    Mutant("residues-names-with-stop", RES, "    starts = get_residue_starts(array)\n    return array.res_id[starts], array.res_name[starts]\n",
+           "    starts = get_residue_starts(array, add_exclusive_stop=True)\n    return array.res_id[starts], array.res_name[starts]\n",
+           "R2.names", "get_residues"),
+    Mutant("residues-names-shifted", RES, "    return array.res_id[starts], array.res_name[starts]\n",
+           "    return array.res_id[starts], array.res_name[starts + 1]\n", "R2.names", "get_residues"),
+    Mutant("wrapper-params-swapped", CHA, "def get_chain_masks(array, indices):", "def get_chain_masks(indices, array):",
+           "R2.wrapper-params", "get_chain_masks"),
+    Mutant("wrapper-param-dropped", RES, "def apply_residue_wise(array, data, function, axis=None):", "def apply_residue_wise(array, data, function):",
+           "R2.wrapper-params", "apply_residue_wise"),
+    Mutant("wrapper-starts-without-stop", CHA,
+           "    starts = get_chain_starts(array, add_exclusive_stop=True)\n    return get_segment_masks(starts, indices)\n",
+           "    starts = get_chain_starts(array)\n    return get_segment_masks(starts, indices)\n",
+           "R2.wrapper-starts", "get_chain_masks"),
+    Mutant("wrapper-starts-of-chains", RES,
+           "    starts = get_residue_starts(array, add_exclusive_stop=True)\n    return get_segment_positions(starts, indices)\n",
+           "    starts = get_chain_starts(array, add_exclusive_stop=True)\n    return get_segment_positions(starts, indices)\n",
+           "R2.wrapper-starts", "get_residue_positions"),
+    Mutant("component-root-argmax", MOL,
+           "        root = np.argmin(visited_mask)\n        connected = find_connected(bonds, root)\n        visited_mask[connected] = True\n        molecule_indices.append(connected)\n",
+           "        root = np.argmax(visited_mask)\n        connected = find_connected(bonds, root)\n        visited_mask[connected] = True\n        molecule_indices.append(connected)\n",
+           "R3.component-loop", "get_molecule_indices"),
+    Mutant("component-visited-not-marked", MOL,
+           "        visited_mask[connected] = True\n        molecule_indices.append(connected)\n",
+           "        visited_mask[root] = True\n        molecule_indices.append(connected)\n",
+           "R3.component-loop", "get_molecule_indices"),
+    # R3.entry-analysed cannot end in a finding: whatever makes an entry's callee unresolvable also takes the
+    # call away from R3.whole-bond-graph, whose instance floor then stops the run (caught as analysis error)
+    Mutant("masks-callee-unresolvable", MOL, "    molecule_indices = get_molecule_indices(bonds)\n",
+           "    molecule_indices = bonds.get_molecule_indices()\n", "R3.entry-analysed", "get_molecule_masks"),
+    Mutant("apply-segment-end-off-by-one", SEG, "        segment = data[starts[i] : starts[i + 1]]\n",
+           "        segment = data[starts[i] : starts[i + 1] - 1]\n", "R5.apply", "apply_segment_wise"),
+    Mutant("apply-last-segment-skipped", SEG, "    for i in range(len(starts) - 1):\n        segment = data",
+           "    for i in range(len(starts) - 2):\n        segment = data", "R5.apply", "apply_segment_wise"),
+    Mutant("iter-last-segment-skipped", SEG, "    for i in range(len(starts) - 1):\n        yield array",
+           "    for i in range(len(starts) - 2):\n        yield array", "R5.iteration", "segment_iter"),
+    Mutant("iter-overlapping-segments", SEG, "        yield array[..., starts[i] : starts[i + 1]]\n",
+           "        yield array[..., starts[i] : starts[i + 1] + 1]\n", "R5.iteration", "segment_iter"),
+    Mutant("masks-negative-check-dropped", SEG,
+           "    masks = np.zeros((len(indices), length), dtype=bool)\n\n    if (indices < 0).any():\n        raise ValueError(\"This function does not support negative indices\")\n",
+           "    masks = np.zeros((len(indices), length), dtype=bool)\n\n", "R5.range-checked", "get_segment_masks"),
+    Mutant("upper-range-check-off-by-one", SEG, "    if (indices >= length).any():\n", "    if (indices > length).any():\n",
+           "R5.range-checked", "get_segment_positions", count=3),
+    Mutant("spread-lengths-negated", SEG, "    seg_lens = starts[1:] - starts[:-1]\n", "    seg_lens = starts[:-1] - starts[1:]\n",
+           "R5.spread", "spread_segment_wise"),
+    Mutant("spread-wrong-axis", SEG, "    return np.repeat(input_data, seg_lens, axis=0)\n", "    return np.repeat(input_data, seg_lens, axis=-1)\n",
+           "R5.spread", "spread_segment_wise"),
 ]
